@@ -17,6 +17,8 @@ CALL_ONCE = "re:ops::function::FnOnce::call_once$"
 
 
 def run(c):
+    import r9
+    c.r9("C06")
     # --- the six wrappers run their closure on every ok path (justifies treating closures as executing within the call site)
     for w in ("extending", "header_extending", "extending_readonly", "header_extending_readonly", "utxo_view", "rewindable_kernel_view"):
         c.r1("wrapper-invokes-closure-" + w, X + w, CALL_ONCE, sink="ok", via=2, desc="%s: Ok only if the closure returned Ok" % w)
@@ -25,8 +27,8 @@ def run(c):
     c.r1("ext-header-discard", W, DISCARD, require_where=r"^arg0\.backend", start=CALL_ONCE, sink="return", via=2,
          desc="extending: every exit after the closure discards the header MMR backend")
     err_arm = c.arm_blocks(W, r"^discr\(FnOnce::call_once\(arg3", 1)
-    rb_arm = [e[1] for e in c.true_edges(W, r"\.extension\.rollback$")]
-    ok_arm = [e[1] for e in c.false_edges(W, r"\.extension\.rollback$")]
+    rb_arm = [e[1] for e in c.true_edges(W, r"^Extension::new\(arg1, .*\)\.rollback$")]
+    ok_arm = [e[1] for e in c.false_edges(W, r"^Extension::new\(arg1, .*\)\.rollback$")]
     for name, arm in (("err", err_arm), ("rollback", rb_arm)):
         for tree in ("output_pmmr_h", "rproof_pmmr_h", "kernel_pmmr_h"):
             c.r1("ext-%s-discards-%s" % (name, tree), W, DISCARD, require_where=r"^arg1\.%s\.backend" % tree, start=arm, sink="return", via=2,
